@@ -44,6 +44,8 @@ import (
 //                              query = (exact (root ...) npops (sum ...))
 //                              obs = (status (remaining ...) (seen ...)), status 1 = NewCommitsQueue failed,
 //                              2 = a pop failed, 3 = RemoveAncestors returned an error
+// kind 5  the merge command's base selection (see c11_merge.go): heads/main = first head, the other heads as hex
+//         sums, wrgl.VerifRunMerge with --no-gui:  query = (head ...)   obs as kind 1 = the base the command used
 // observation = (obs ...) one per query.
 //
 // Oracle (DFS reachability, set intersection; judged only on histories without absent commits):
@@ -53,6 +55,10 @@ import (
 //   seek{2,3}-input-base-not-returned      some input is an ancestor-or-self of all the others but the result is not such an input
 //   seek{2,3}-missing-although-exists      "not found" although a common ancestor exists
 //   seek-unexpected-error / seek-nil-result
+//   merge-base-differs-from-library        the command's base is not what SeekCommonAncestor answers for all heads at once
+//   merge{2,3}-missing-although-exists / merge{2,3}-input-base-not-returned / merge2-result-not-common-ancestor /
+//   merge-unexpected-error / merge-base-unobservable     the same graph oracle applied to the command (for >= 3 heads
+//                                          "not common" is reported under the library class seek3-result-not-common-ancestor)
 //   popuntil-false-eof / popuntil-false-found / popuntil-wrong-commit / popuntil-incomplete-eof / popuntil-not-a-walk-prefix /
 //   popuntil-unexpected-error
 //   remove-ancestors-misses-ancestor / remove-ancestors-removes-non-ancestor / remove-ancestors-reorders /
@@ -74,11 +80,16 @@ type c11World struct {
 	index map[string]int
 }
 
-func c11Build(nodes []c11Node) *c11World {
+// withTables: every commit gets a real one-row table (a=1, b=n<i>) so that the merge command can run
+func c11Build(nodes []c11Node, withTables bool) *c11World {
 	w := &c11World{nodes: nodes, db: objmock.NewStore(), index: map[string]int{}}
 	for i, nd := range nodes {
+		tbl := bytes.Repeat([]byte{byte(i + 1)}, 16)
+		if withTables {
+			tbl = c11IngestTable(w.db, i)
+		}
 		c := &objects.Commit{
-			Table:       bytes.Repeat([]byte{byte(i + 1)}, 16),
+			Table:       tbl,
 			AuthorName:  "a",
 			AuthorEmail: "a@b.c",
 			Time:        time.Unix(int64(1600000000+nd.time), 0).UTC(),
@@ -193,7 +204,8 @@ func c11Ints(t *xt.T) []int {
 // over the frequent known one so that they are never masked
 func c11Prio(class string) int {
 	switch {
-	case strings.HasSuffix(class, "result-not-common-ancestor"):
+	case class == "seek3-result-not-common-ancestor", class == "merge-nogui-panics-when-base-is-a-head":
+		// frequent classes about the CLEAN code (registered known finding / reported crash): never mask another class
 		return 1
 	case strings.HasSuffix(class, "missing-although-exists"):
 		return 2
@@ -203,7 +215,7 @@ func c11Prio(class string) int {
 
 func runC11(ctx *Ctx, c *xt.T) (*xt.T, Verdict) {
 	kind := int(c.Kids[0].N)
-	w := c11Build(c11ParseGraph(c.Kids[1]))
+	w := c11Build(c11ParseGraph(c.Kids[1]), kind == 5)
 	out := xt.N()
 	v := OK()
 	bad := func(class, format string, a ...interface{}) {
@@ -236,93 +248,10 @@ func runC11(ctx *Ctx, c *xt.T) (*xt.T, Verdict) {
 			}
 		case 1:
 			cs := c11Ints(q)
-			sums := make([][]byte, len(cs))
-			for i, x := range cs {
-				sums[i] = w.sum(x)
-			}
-			ar := "2"
-			if len(cs) >= 3 {
-				ar = "3"
-			}
-			base, err := ref.SeekCommonAncestor(w.db, sums...)
-			// oracle: common ancestors = intersection of the reachable sets
-			missing := false
-			reaches := make([]map[int]bool, len(cs))
-			for i, x := range cs {
-				var m bool
-				reaches[i], m = w.reach([]int{x})
-				missing = missing || m
-			}
-			common := []int{}
-			if len(cs) > 0 {
-				for x := range reaches[0] {
-					all := true
-					for _, r := range reaches[1:] {
-						all = all && r[x]
-					}
-					if all {
-						common = append(common, x)
-					}
-				}
-				sort.Ints(common)
-			}
-			inputBase := -1 // first input that is an ancestor-or-self of every other input
-			if len(cs) > 1 {
-				for i, x := range cs {
-					all := true
-					for j := range cs {
-						all = all && (i == j || reaches[j][x])
-					}
-					if all {
-						inputBase = x
-						break
-					}
-				}
-			}
-			switch {
-			case err != nil && strings.Contains(err.Error(), "common ancestor commit not found"):
-				out.Add(xt.N(xt.LI(2)))
-				if !missing && len(common) > 0 {
-					bad("seek"+ar+"-missing-although-exists", "SeekCommonAncestor%v reports no common ancestor but %v are common ancestors", cs, common)
-				}
-			case err != nil:
-				out.Add(xt.N(xt.LI(1)))
-				if !missing {
-					bad("seek-unexpected-error", "SeekCommonAncestor%v on a complete history: %v", cs, err)
-				}
-			case base == nil:
-				out.Add(xt.N(xt.LI(3)))
-				bad("seek-nil-result", "SeekCommonAncestor%v returned neither a commit nor an error", cs)
-			default:
-				x := w.idx(base)
-				out.Add(xt.N(xt.LI(0), xt.LI(x)))
-				if missing {
-					break
-				}
-				isCommon := false
-				for _, y := range common {
-					isCommon = isCommon || y == x
-				}
-				if !isCommon {
-					bad("seek"+ar+"-result-not-common-ancestor", "SeekCommonAncestor%v = %d which is not an ancestor-or-self of every input (common ancestors: %v)", cs, x, common)
-				} else if inputBase >= 0 {
-					// the result must be an input that is an ancestor-or-self of all the others
-					okIn := false
-					for i, y := range cs {
-						if y != x {
-							continue
-						}
-						all := true
-						for j := range cs {
-							all = all && (i == j || reaches[j][y])
-						}
-						okIn = okIn || all
-					}
-					if !okIn {
-						bad("seek"+ar+"-input-base-not-returned", "SeekCommonAncestor%v = %d although input %d is an ancestor-or-self of all the others", cs, x, inputBase)
-					}
-				}
-			}
+			base, err := ref.SeekCommonAncestor(w.db, c11Sums(w, cs)...)
+			outcome, x := c11BaseOutcome(w, base, err)
+			out.Add(c11BaseObs(outcome, x))
+			c11JudgeBase(w, cs, outcome, x, err, "seek", "SeekCommonAncestor", bad)
 		case 2:
 			exact := q.Kids[0].N != 0
 			roots := c11Ints(q.Kids[1])
@@ -385,6 +314,8 @@ func runC11(ctx *Ctx, c *xt.T) (*xt.T, Verdict) {
 			out.Add(c11RunPopUntil(w, q, bad))
 		case 4:
 			out.Add(c11RunRemoveAncestors(w, q, bad))
+		case 5:
+			out.Add(c11RunMerge(ctx, w, q, bad))
 		default:
 			panic("c11: unknown case kind")
 		}
@@ -678,6 +609,8 @@ func genC11(ctx *Ctx) []Case {
 			}
 		}
 	}
+	// ---- the merge command's base selection (kind 5) ------------------------------------
+	c11GenMerge(ctx, e)
 	// ---- random DAGs up to 25 nodes --------------------------------------------------
 	nr := 150
 	if ctx.Thorough() {
